@@ -473,6 +473,17 @@ class Monitor:
         self.meta = meta
 
     def __call__(self, op, out, st):
+        r = self.check(op, out)
+        if isinstance(r, tuple) and r[1] is not None:
+            # one report per identified defect (the framework stops after 5 violations; this way
+            # they are 5 different defects, not 5 inputs for the same one)
+            seen = st.setdefault('seen_keys', set())
+            if r[1] in seen:
+                return None
+            seen.add(r[1])
+        return r
+
+    def check(self, op, out):
         t = op.split()
         if t[0] != 'set':
             return None
